@@ -64,7 +64,7 @@ def _main(runner, fin, fout):
                 signal.alarm(0)
             except CaseTimeout:
                 rec = {"case": c.get("case"), "harness_error": "case timeout"}
-            except Exception:
+            except (Exception, SystemExit):
                 signal.alarm(0)
                 rec = {"case": c.get("case"), "harness_error": traceback.format_exc()}
             finally:
